@@ -1193,6 +1193,18 @@ async fn run_history_inner(cfg: &ObsCfg, ops: &[Op], listener: &TcpListener) -> 
                 *out.applied.entry(o.kind()).or_insert(0) += 1;
             }
         }
+        // An export-policy change (+ soft reset out) is a configuration step addressed to
+        // the neighbour's session, not a RIB event: issued while that session is still
+        // coming up it has no session to reset, and which policy the initial dump uses is
+        // not something the statement fixes.  Such steps are applied before the session
+        // comes up; only RIB-side operations race with it.
+        let (cfg_steps, during): (Vec<Op>, Vec<Op>) = during.iter().cloned().partition(|o| matches!(o, Op::ExportPolicy { .. }));
+        for o in &cfg_steps {
+            if world.apply(o) {
+                *out.applied.entry(o.kind()).or_insert(0) += 1;
+            }
+        }
+        let during = &during[..];
         let mut groups: Vec<Vec<Op>> = vec![Vec::new(), Vec::new(), Vec::new()];
         for o in during {
             let g = match o {
